@@ -41,3 +41,6 @@ func (g *Galaxy) VerifCNI(r *restful.Request, w *restful.Response) { g.cni(r, w)
 
 // VerifCleanIPtables wraps cleanIPtables (the GC's port clean callback).
 func (g *Galaxy) VerifCleanIPtables(containerID string) error { return g.cleanIPtables(containerID) }
+
+// VerifSetupIPtables wraps setupIPtables (what a starting daemon does for the host ports of the pods already on the node).
+func (g *Galaxy) VerifSetupIPtables() error { return g.setupIPtables() }
